@@ -227,6 +227,57 @@ theorem parseAll_misdetects_iff (ext : Ext) (fcbSup : Bool) (d : Desc) (init : N
       ∃ r, firstSome (trial ext fcbSup d.segs b) (0 :: pre) = some r ∧ r ≠ (init, expectedFound init (mkSlots d.segs raws)) :=
   Bimg.parseAll_misdetects_iff' ext fcbSup d init raws h hsup hdel b hb pre post hc
 
+/-! ## 5a. The padding predicate (`Segment._is_padding`) - tied to the source by behaviour
+
+`BimgTables.paddingProbes` is the method's own source evaluated (in isolation, on every run) on a fixed probe set: uniform blocks,
+every kind of 00/FF mix, a third byte value, short / long inputs, SIZE ≤ 0, the three IMAGE_PATTERNS lists. -/
+
+/-- a segment description for a probe -/
+def probeSeg (size : Int) (pats : List String) : Seg :=
+  { kind := 0, size := size, align := 1, initSeg := false, bootHeader := true, parser := .raw, extFind := false, ownLen := false,
+    patterns := pats.filterMap patOf, pos := some 0 }
+
+/-- the model's `isPadding` answers every probe like the source's `_is_padding` - a predicate that takes a MIX of fill bytes (or
+    anything else than one uniform block of SIZE bytes) for padding changes a probe's answer and breaks this -/
+theorem padding_predicate_probes :
+    BimgTables.paddingProbesOk = true ∧
+    ∀ p ∈ BimgTables.paddingProbes, isPadding (probeSeg p.1 p.2.1) p.2.2.1 = p.2.2.2 := by
+  decide +kernel
+
+/-- `isPadding` says: the first SIZE bytes are EXACTLY the block of one of the segment's IMAGE_PATTERNS -/
+theorem isPadding_iff (s : Seg) (data : Bytes) :
+    isPadding s data = true ↔ 0 < s.size ∧ ∃ p ∈ s.patterns, data.take s.size.toNat = p.block s.size.toNat := by
+  unfold isPadding
+  simp only [Bool.and_eq_true, decide_eq_true_eq, List.any_eq_true, beq_iff_eq]
+
+/-- … for the zeros / ones patterns of the segment classes: uniformly 0x00 or uniformly 0xFF -/
+theorem isPadding_iff_uniform (s : Seg) (data : Bytes) (hp : ∀ p ∈ s.patterns, p = .zeros ∨ p = .ones) :
+    isPadding s data = true ↔ 0 < s.size ∧ ∃ p ∈ s.patterns,
+      data.take s.size.toNat = List.replicate s.size.toNat (if p = .ones then 0xFF else 0x00) := by
+  rw [isPadding_iff]
+  constructor
+  · rintro ⟨h0, p, hm, he⟩
+    exact ⟨h0, p, hm, by rw [he, Bimg.bimg_block p _ (hp p hm)]⟩
+  · rintro ⟨h0, p, hm, he⟩
+    exact ⟨h0, p, hm, by rw [he, Bimg.bimg_block p _ (hp p hm)]⟩
+
+/-- hence the parse round trip for raw fixed-size segments (key blob, key store, BEE headers): SIZE bytes that are neither
+    uniformly 0x00 nor uniformly 0xFF - in particular every MIX of 0x00 and 0xFF bytes - come back unchanged -/
+theorem raw_delimits_nonuniform (ext : Ext) (fcbSup : Bool) (s : Seg) (c rest : Bytes) (hpar : s.parser = .raw)
+    (hsz : 0 < s.size) (hlen : (c.length : Int) = s.size) (hp : ∀ p ∈ s.patterns, p = .zeros ∨ p = .ones)
+    (h0 : c ≠ List.replicate c.length 0x00) (h1 : c ≠ List.replicate c.length 0xFF) :
+    parseSeg ext fcbSup s (c ++ rest) = .present c := by
+  apply raw_delimits ext fcbSup s c rest hpar hsz hlen
+  cases hpad : isPadding s c with
+  | false => rfl
+  | true =>
+    obtain ⟨_, p, hm, he⟩ := (isPadding_iff_uniform s c hp).1 hpad
+    have hn : s.size.toNat = c.length := by omega
+    rw [hn, List.take_length] at he
+    rcases hp p hm with rfl | rfl
+    · exact absurd he h0
+    · exact absurd he h1
+
 /-! ## 5b. Flash dumps: trailing bytes behind the last segment
 
 `TrailOK init slots n tail` (Model/BimgSpec.lean): the last table entry is not a whole-rest parser, and if it is an absent
@@ -609,6 +660,12 @@ example : (match exportImg exDesc 0 exRaws2 with
 /-- every byte of an export is a segment byte or the fill byte (`export_bytes_classified` on the example) -/
 example : exportImg exDesc 8 exRaws =
     .ok (exFcb ++ List.replicate 16 0 ++ [0xA5, 5, 1, 2, 3] ++ [0, 0, 0] ++ [0xA5, 3, 8]) := by decide +kernel
+
+/-- a key-store-like block that is a MIX of 0x00 and 0xFF bytes is not padding: it delimits itself (`raw_delimits_nonuniform`) -/
+example : (∀ p ∈ (exDesc.segs[0]).patterns, p = .zeros ∨ p = .ones) ∧
+    ([0, 0xFF, 0xFF, 0xFF] : Bytes) ≠ List.replicate 4 0x00 ∧ ([0, 0xFF, 0xFF, 0xFF] : Bytes) ≠ List.replicate 4 0xFF ∧
+    parseSeg exExt false exDesc.segs[0] ([0, 0xFF, 0xFF, 0xFF] ++ [1, 2]) = .present [0, 0xFF, 0xFF, 0xFF] ∧
+    parseSeg exExt false exDesc.segs[0] ([0xFF, 0xFF, 0xFF, 0xFF] ++ [1, 2]) = .absent := by decide
 
 /-- parse without memory type: a family with two memory types - a container-only table (like serial_downloader) first, then
     `exDesc`; the full image made for the second is answered with index 1 (the first one's trial rejects the padding), and the
